@@ -1,15 +1,16 @@
 (* Property C07 assembled: every object reachable by a finite history of parse, resolve,
    create-reference, normalize (any mask) and make-owner steps reads back with the same meaning,
-   provided no normalization step of the history falls into one of the two known defect shapes
-   (D7b [exposes_colon], D14 [exposes_dslash]; Proofs/RereadNormalize.v shows both are exact). *)
+   provided no normalization step of the history falls into the known defect shape D7b
+   ([exposes_colon]; Proofs/RereadNormalize.v shows it is exact).  The second shape of earlier versions
+   (D14, a path text beginning with "//") was repaired in the C code and is no longer a hypothesis. *)
 From Coq Require Import List NArith Bool.
 From UP Require Import Base.Chars Model.Uri Model.Parse Model.Normalize Model.History Model.Recompose
   Spec.Reread Proofs.ParsedProduced Proofs.RereadNormalize Proofs.RereadResolve Proofs.RereadProofs.
 Import ListNotations.
 
-(* a normalization step outside the two defect shapes *)
+(* a normalization step outside the defect shape *)
 Definition norm_outside_findings (mask : N) (u : uri) : Prop :=
-  exposes_colon mask u = false /\ exposes_dslash mask u = false.
+  exposes_colon mask u = false.
 
 Theorem history_all_produced_wf : forall ops,
   normalize_steps_ok norm_outside_findings empty_store ops ->
@@ -18,7 +19,7 @@ Proof.
   intros ops Hok i u Hrun.
   apply (history_produced_wf norm_outside_findings) with (ops := ops) (i := i); try assumption.
   - exact parsed_produced_wf.
-  - intros mask v Hv [Hc Hd]. apply normalize_produced_wf; assumption.
+  - intros mask v Hv Hc. apply normalize_produced_wf; assumption.
   - exact make_owner_produced_wf.
 Qed.
 
